@@ -82,6 +82,10 @@ def fam_min_load(T):
 def fam_fuel_heat(T, thorough=False):
     out = []
     cid = 0
+    # heat with a capacity range wide enough for the ramp limit to bind between two on-steps (through power, through heat, through both)
+    for conv, init, ramp in itertools.product([(1, 1), (1, 2)], [(0, 2, 0), (2, 0, 2)], (1, 2)):
+        cid += 1
+        out.append(uc_cfg(cid, T, lo=1, hi=4, price=[-3, 2, -2, 1][:T], run0=init[0], off0=init[1], last0=init[2], startcost=1, heat=True, conv=conv, share=(1, 1), ramp=ramp))
     for heat, fuel, (mr, md), init in itertools.product((False, True), (False, True), [(0, 0), (2, 2)], [(0, 2, 0), (2, 0, 2)]):
         if not heat and not fuel:
             continue
